@@ -265,7 +265,7 @@ func c17ArgFrom(r *Report, id string, fn *ssa.Function, c Callee, idx int, pat V
 		return
 	}
 	key := id + " @ " + r.P.FuncName(fn)
-	calls := Calls(fn, c)
+	calls := r.P.CallsNear(fn, c)
 	r.Sites += len(calls)
 	if len(calls) == 0 {
 		r.Lost(key, rule, "no call found")
